@@ -121,6 +121,9 @@ func runCase(c Case) verdict {
 		if !ce.Pos.IsValid() || !ce.End.IsValid() || ce.End < ce.Pos {
 			return verdict{msg: fmt.Sprintf("error without a valid source range: %v", ce)}
 		}
+		if tf := tr.Fset.File(ce.Pos); tf == nil || int(ce.End) > tf.Base()+tf.Size() {
+			return verdict{msg: fmt.Sprintf("error range ends outside the file it starts in: %v", ce)}
+		}
 		p := tr.Fset.Position(ce.Pos)
 		fileOK := false
 		fi := -1
@@ -265,8 +268,8 @@ func TestDenseCatalogue(t *testing.T) {
 		n := rapid.IntRange(3, 10).Draw(t, "nitems")
 		var uses []catalog.Use
 		for k := 0; k < n; k++ {
-			it := pool[rapid.IntRange(0, len(pool)-1).Draw(t, "item")]
-			uses = append(uses, catalog.Use{Item: it.ID, Ctx: rapid.IntRange(0, len(catalog.Contexts)-1).Draw(t, "ctx")})
+			it := pool[gen.Uniform(t, "item", len(pool))]
+			uses = append(uses, catalog.Use{Item: it.ID, Ctx: gen.Uniform(t, "ctx", len(catalog.Contexts))})
 		}
 		src, _ := catalog.RenderPackage(base, uses)
 		check(t, "TestDenseCatalogue", Case{PkgPath: "main", Files: []tv.SourceFile{{Name: "prog.go", Src: src}}, Kind: "dense"})
@@ -336,12 +339,7 @@ type mutator struct {
 	file *ast.File
 }
 
-func (m *mutator) pick(label string, n int) int {
-	if n <= 1 {
-		return 0
-	}
-	return rapid.IntRange(0, n-1).Draw(m.t, label)
-}
+func (m *mutator) pick(label string, n int) int { return gen.Uniform(m.t, label, n) }
 
 func (m *mutator) blocks() []*ast.BlockStmt {
 	var out []*ast.BlockStmt
@@ -595,8 +593,8 @@ func TestMutateExamples(t *testing.T) {
 		t.Skip("no seeds")
 	}
 	rapid.Check(t, func(t *rapid.T) {
-		sp := seeds[rapid.IntRange(0, len(seeds)-1).Draw(t, "seed")]
-		fi := rapid.IntRange(0, len(sp.files)-1).Draw(t, "file")
+		sp := seeds[gen.Uniform(t, "seed", len(seeds))]
+		fi := gen.Uniform(t, "file", len(sp.files))
 		fset := token.NewFileSet()
 		af, err := parser.ParseFile(fset, sp.files[fi].Name, sp.files[fi].Src, parser.ParseComments)
 		if err != nil {
